@@ -18,8 +18,17 @@ CONF = dict(
  'distinct = distinct (kind, input)'),
     assumptions=['field values inside the ranges of their Go types; fixed byte arrays ([6]uint8 seconds, [3]uint8 organisation ids) read as one big-endian number',
  'CSPTP response TLV: ServerStateDS zero unless the flag bit is set (otherwise it is not on the wire); request TLV padding bytes are not data',
+ 'NTS nonce: Authenticator.pack always draws a 16-byte nonce itself (a caller-set Auth.Nonce is ignored), so 16 is the only length the encoder produces; the DECODER is not an inverse of the '
+ 'format for nonce lengths that are not a multiple of 4 (theorem C14_nts_nonce_padding_refuted, kind nts.fmt); such packets are refused by authenticate (nonce length != 16)',
+ 'NTS encrypted cookies: cookies shorter than 24 bytes inside the encrypted part are dropped by the 28-byte loop guard of authenticate (theorems C14_nts_walk_short, '
+ 'C14_nts_response_short_cookie_dropped); the project\'s servers issue 124-byte cookies only (C11_issued_cookie_length)',
  'NTS: unique identifier >= 32 bytes, packet within nts.MaxPacketLen (1024); nonce (16 bytes from rand.Read) and ciphertext (AEAD Seal, >= 16 bytes) are arbitrary inputs of the encoder model; '
  'a CookiePlaceholder decodes to its header only, a value to itself zero-padded to a multiple of 4',
+ 'NTS-KE: the decoder keeps algorithm, server, port and cookies; the NextProto value, the critical bits of Server/Port and unknown non-critical records are discarded (C14_ntske_projection); '
+ 'Algorithm records with other than one entry, Warning and Error records do not round-trip: their decode outcome is stated (C14_ntske_algorithms, _warning_record, _error_record, _meets_spec)',
+ 'server cookies with byte strings of 2^16 bytes or more have no wire form (16-bit length field): ck.enc makes no claim there (the model still predicts the bytes); '
+ 'errUnexpectedExtHdrType is unreachable through the exported API (DecodePacket only calls unpack with the matching type)',
+ 'quick tier: every value of the 8-bit fields, about 2000 of the 65536 values of each 16-bit field (all high bytes x a few low bytes and vice versa); the thorough tier sweeps all 65536',
  'server cookies: byte strings shorter than 2^16; NTS-KE: canonical record bodies (NextProto/Port/one-algorithm Algorithm 2 bytes, Cookie/Server bodies < 2^16 bytes)',
  'the reader below ReadData (bufio.Reader over TLS/QUIC) answers every Read of m > 0 bytes with a non-empty prefix (<= m bytes) of what is left, or EOF at the end'],
     trusted=['modelled, not verified: encoding/binary.Read/Write, io.ReadFull, bufio.Reader (as the reader oracle above), bytes.Buffer',
@@ -39,5 +48,5 @@ CONF = dict(
  'and reproduced by the model. ReadData ignores the announced body length of NextProto/Algorithm/Port/Error records and reads 2 bytes: non-canonical bodies desynchronise the stream (model agrees).'),
     timeout_quick=900,
     timeout_thorough=3000,
-    min_cases={'ck.crypt': 90, 'ck.dec': 360, 'ck.enc': 1005, 'csptp.hist': 225, 'csptp.msg.dec': 360, 'csptp.msg.enc': 2652, 'csptp.req.dec': 360, 'csptp.req.enc': 1275, 'csptp.resp.dec': 360, 'csptp.resp.enc': 3566, 'ke.records': 556, 'ke.stream': 150, 'ntp.dec': 526, 'ntp.enc': 2588, 'ntp.hist': 90, 'ntp.set': 3916, 'nts.dec': 450, 'nts.enc': 462, 'nts.resp': 225, 'nts.pos': 225, 'nts.req': 150},
+    min_cases={'ck.crypt': 90, 'ck.dec': 360, 'ck.enc': 1005, 'csptp.hist': 225, 'csptp.msg.dec': 360, 'csptp.msg.enc': 2652, 'csptp.req.dec': 360, 'csptp.req.enc': 1275, 'csptp.resp.dec': 360, 'csptp.resp.enc': 3566, 'ke.records': 556, 'ke.stream': 150, 'ntp.dec': 526, 'ntp.enc': 2588, 'ntp.hist': 90, 'ntp.set': 3916, 'nts.dec': 450, 'nts.enc': 462, 'nts.resp': 225, 'nts.pos': 225, 'nts.req': 150, 'nts.redec': 150, 'nts.fmt': 110},
 )
